@@ -209,6 +209,43 @@ theorem C14_terms_final_conservation {V : Type} (p : TermsP) (all : List (Int ×
   rw [sumCounts_append]
   omega
 
+/-- top_hits: the best `k` `(sort key, document)` pairs of a union only depend on the best `k`
+of the parts (the `TopNComputer` semilattice; same specification shape as C06's
+`topK le K 0`), with no hypothesis on the entries — so top_hits, at any depth, is covered by
+`C14_merge_comm/assoc/empty_unit`, `C14_finalize_collect_eq_evalAgg` and
+`C14_direct_equals_partitioned` like every other node -/
+theorem C14_top_hits_merge (desc : Bool) (k : Nat) (x y : List HitE) :
+    (Hits.ofList (x ++ y) : Hits desc k) = Hits.merge (Hits.ofList x) (Hits.ofList y)
+      ∧ (Hits.ofList (x ++ y) : Hits desc k).list = (isort (hitLe desc) (x ++ y)).take k :=
+  ⟨Hits.ofList_append x y, rfl⟩
+
+/-- composite keys: the mixed-radix code of a tuple of source keys orders tuples
+lexicographically — first source most significant (`d`, `d'` the leading source keys, `r`, `r'`
+the codes of the remaining sources, both below the radix `R` of the remaining sources).  With it
+the integer order used by the composite node *is* the per-source composite-key order, so
+`C14_finalize_collect_eq_evalAgg` / `C14_direct_equals_partitioned` state for composite:
+buckets = product of source keys, count = documents having the combination, page = the `size`
+buckets after `after` in composite-key order. -/
+theorem C14_composite_key_order (R d d' r r' : Int) (hr : 0 ≤ r ∧ r < R) (hr' : 0 ≤ r' ∧ r' < R) :
+    d * R + r < d' * R + r' ↔ (d < d' ∨ (d = d' ∧ r < r')) := by
+  have hR : 0 < R := by omega
+  constructor
+  · intro h
+    by_cases hd : d < d'
+    · exact Or.inl hd
+    · by_cases he : d = d'
+      · subst he; exact Or.inr ⟨rfl, by omega⟩
+      · have h2 : d' + 1 ≤ d := by omega
+        have h3 : (d' + 1) * R ≤ d * R := Int.mul_le_mul_of_nonneg_right h2 (by omega)
+        have h4 : (d' + 1) * R = d' * R + R := by rw [Int.add_mul, Int.one_mul]
+        omega
+  · rintro (hd | ⟨he, hlt⟩)
+    · have h2 : d + 1 ≤ d' := by omega
+      have h3 : (d + 1) * R ≤ d' * R := Int.mul_le_mul_of_nonneg_right h2 (by omega)
+      have h4 : (d + 1) * R = d * R + R := by rw [Int.add_mul, Int.one_mul]
+      omega
+    · subst he; omega
+
 /-- merging after a serialisation round trip that is the identity on intermediate trees gives
 the same result (that postcard's round trip *is* the identity is tested by the harness, not
 proved) -/
@@ -302,6 +339,15 @@ example : ∀ d ∈ exDocs1 ++ exDocs2, DocOK exReq d := by
   intro d hd
   simp only [exDocs1, exDocs2, List.cons_append, List.nil_append, List.mem_cons, List.not_mem_nil, or_false] at hd
   rcases hd with rfl | rfl | rfl | rfl <;> (simp only [DocOK, exReq]; decide)
+example : evalAgg Int (.hist ⟨0, 10, 0, 1, Option.none, Option.none⟩ (.topHits 1 1 1 true))
+    [[(0, [1]), (1, [7])], [(0, [2]), (1, [9])], [(0, [15]), (1, [3])]] = [(0, 2, [(9, 9)]), (1, 1, [(3, 3)])] := by
+  decide +kernel
+/-- two sources (first ascending with 3 keys, second descending with 2 keys): the document with
+source keys {0,2} x {1} gets the product keys 0*2+(2-1-1) = 0 and 2*2+0 = 4 -/
+example : compKeys [⟨0, 3, false⟩, ⟨1, 2, true⟩] [(0, [0, 2]), (1, [1])] = [0, 4] := by decide
+example : evalAgg Int (.composite [⟨0, 3, false⟩, ⟨1, 2, true⟩] 2 (some 0) .none)
+    [[(0, [0, 2]), (1, [1])], [(0, [2]), (1, [0, 1])], [(0, [1])]] = [(4, 2, ()), (5, 1, ())] := by
+  decide +kernel
 example : [0, 10, 20].Pairwise (fun a b : Int => a < b) := by decide
 example : ([1, 2, 3] : List Int).Nodup ∧ ∀ d ∈ exTDocs, ∀ k ∈ termKeys ⟨0, Option.none, 2, 2, 1, .countDesc⟩ d, k ∈ [1, 2, 3] := by
   decide
